@@ -88,6 +88,11 @@ def gen_cases(tier, seed):
                 keys.append(dict(part="chain", fab=fab, reg=reg, flow=fl, tex="random", vol="geometric", ng=8, prm="default"))
     for s in (0, 1, 12345):
         keys.append(dict(part="default", seed=s))
+    # a mineral whose (valid) phase is not listed in the assemblage: the update is either
+    # rejected (history untouched) or accepted with exactly one new, valid snapshot
+    for fab in ("olA", "enAB"):
+        for reg in H.REGIMES:
+            keys.append(dict(part="absent", fab=fab, reg=reg))
     return keys
 
 
@@ -143,6 +148,8 @@ def check_transition(res, key, parent, child, n, hist):
 
 
 def run_case(key):
+    if key["part"] == "absent":
+        return run_absent(key)
     if key["part"] == "default":
         return run_default(key)
     res = empty_result()
@@ -218,6 +225,37 @@ def run_case(key):
     res["outcomes"] += obs[:50]
     res["obs"] = digest(*obs)
     res["sample"] = {"case": key, "states": res["states"], "transitions": res["trans"]}
+    return res
+
+
+def run_absent(key):
+    res = empty_result()
+    pd = H.pd()
+    ph, fb = alph.FABRICS[key["fab"]]
+    m = H.build_mineral(dict(fab=key["fab"], reg=key["reg"], tex="random", vol="uniform", ng=5, prm="default"))
+    prm = H.params_for(1 - ph, "default")  # the assemblage lists only the OTHER phase
+    before = (len(m.orientations), len(m.fractions), H.snapshot_hashes(m))
+    res["n"] = res["trans"] = 1
+    res["states"] = 1
+    res["clauses"]["append_one"] = 1
+    try:
+        H.update(m, prm, np.eye(3), H.flow("gen"), 0.0, 0.3)
+        out = "accepted"
+    except Exception as e:
+        out = "rejected:" + type(e).__name__
+    after = (len(m.orientations), len(m.fractions))
+    if out == "accepted":
+        if after != (before[0] + 1, before[1] + 1):
+            V(res, key, "append_one", {"outcome": out, "snapshots_before": before[:2], "snapshots_after": after})
+        else:
+            for clause, detail in H.check_snapshot(m.orientations[-1], m.fractions[-1], 5, 1, 0.3):
+                V(res, key, clause, detail, hist="gen:0.3", N=1)
+    elif after != before[:2] or H.snapshot_hashes(m)[: before[0]] != before[2]:
+        V(res, key, "append_only", {"outcome": out, "snapshots_before": before[:2], "snapshots_after": after})
+    res["nontrivial"].append(digest(key))
+    res["outcomes"].append(out)
+    res["obs"] = digest(out, after)
+    res["sample"] = {"case": key, "outcome": out}
     return res
 
 
